@@ -35,7 +35,7 @@ def stepM (op : Op) : M Unit := do
     let r ← syncCoroutine "arbiter_start_watchers" (.arbStartWatchers desc) []
     match r with | .error _ => emit .conflict | .ok tid => addDoneCallback tid .watch
   | .req cid j => handleMessage (some cid) j
-  | .sigreq q => handleMessage none (some (if q then quitMsg else reloadMsg))
+  | .sigreq q => if q then sigQuit else handleMessage none (some reloadMsg)
   | .check =>
     modS fun s => { s with doneVals := [] }
     let r ← syncCoroutine "manage_watchers" .manageWatchers []
@@ -56,6 +56,10 @@ def stepM (op : Op) : M Unit := do
   | .xkill pid sig => do let _ ← kKill pid sig "x"
   | .fault k pid st => modS fun s => { s with k := { s.k with faults := s.k.faults ++ [(k, pid, st)] } }
   settle 100000
+  let a ← getA
+  if a.loopStop then
+    modA fun a => { a with loopStop := false }
+    stopController
 
 def step (s : State) (op : Op) : State := (stepM op s).2
 
